@@ -28,6 +28,28 @@ DOUBLING = {"_double", "_double_with_z_1"}
 
 CONFIG_SENSITIVE = True      # thorough tier: analysed under all four build configurations
 
+def identity_operand_rule(chk, M, pid):
+    # ---- R06.8 identity operands: the internal addition recognises an operand with Z == 0
+    # (the form in which the formulas themselves produce the identity) and returns the other one
+    fa = M.c.methods["_add"]
+    pa = [x for x in fa.params if x not in ("self", "cls")]
+    for zi, others in ((2, pa[3:6]), (5, pa[0:3])):
+        zname = pa[zi] if len(pa) >= 7 else None
+        hit = False
+        for t in M.tests:
+            if t.func is fa and t.kind == "zero" and isinstance(t.node, ast.UnaryOp) and isinstance(t.node.operand, ast.Name) and t.node.operand.id == zname and isinstance(t.stmt, ast.If):
+                rv = t.stmt.body[0].value if len(t.stmt.body) == 1 and isinstance(t.stmt.body[0], ast.Return) else None
+                if isinstance(rv, ast.Tuple) and [getattr(x, "id", None) for x in rv.elts] == others:
+                    hit = True
+        chk.ob("R06.8", "_add: operand with %s == 0 (identity in Jacobian form) -> the other operand is returned" % zname, hit, loc=fa.qname, key="%s|R06.8|_add|%d" % (pid, zi),
+               detail="_add does not treat an operand with %s == 0 as the identity: the sum with a point at infinity produced by the formulas (X, Y != 0, 0) is wrong" % zname)
+    fd_ = M.c.methods["_double"]
+    pd = [x for x in fd_.params if x not in ("self", "cls")]
+    hitd = any(t.func is fd_ and t.kind == "zero" and isinstance(t.node, ast.UnaryOp) and isinstance(t.node.operand, ast.Name) and t.node.operand.id == pd[2] and identity_outcome(t.stmt, t.node) == "(0, 0, 1)" for t in M.tests)
+    chk.ob("R06.8", "_double: operand with %s == 0 -> (0, 0, 1)" % pd[2], hitd, loc=fd_.qname, key="%s|R06.8|_double" % pid, detail="_double does not map an identity operand (Z == 0) to the identity")
+
+
+
 def run(chk):
     chk.rule("R06.1", "tests on coordinate values are exact modulo p")
     chk.rule("R06.2", "representation invariant: constructed / stored coordinates are reduced; Z == 0 mapped to INFINITY before construction")
@@ -36,6 +58,8 @@ def run(chk):
     chk.rule("R06.5", "_add dispatches to each formula helper under the Z facts it assumes")
     chk.rule("R06.6", "inverse_mod arguments are non-zero modulo p")
     chk.rule("R06.7", "__eq__/__ne__ pairing and NotImplemented for foreign types")
+    chk.rule("R06.9", "legacy Point.__add__ decides the equal-x case by an exact test modulo p")
+    chk.rule("R06.8", "identity operands (Z == 0) are recognised by the internal addition and doubling")
     chk.configs = ["py3"]
     W_ = world()
     p = W_.p
@@ -44,7 +68,7 @@ def run(chk):
 
     # ---- R06.1
     coord_tests = [t for t in M.tests]
-    chk.floor("R06.1", "coordinate-valued tests in PointJacobi", len(coord_tests), 30)
+    chk.floor("R06.1", "coordinate-valued tests in PointJacobi", len(coord_tests), 10)
     seen = {}
     for t in coord_tests:
         k = (t.func.node.name, t.ctext, t.kind)
@@ -55,7 +79,7 @@ def run(chk):
 
     # ---- R06.2
     ctor = [c for c in M.ctor_args if len(c[2]) == 3]
-    chk.floor("R06.2", "PointJacobi constructions inside the class", len(ctor), 8)
+    chk.floor("R06.2", "PointJacobi constructions inside the class", len(ctor), 3)
     cnt = {}
     for f, n, a in ctor:
         nm = f.node.name
@@ -89,7 +113,7 @@ def run(chk):
     # legacy Point: every Point(...) built in Point's own arithmetic gets `% p` / p - y values
     MP = ModP(p, "Point")
     leg = [c for c in MP.ctor_args if len(c[2]) == 2 and c[0].node.name in ("__add__", "double", "__neg__")]
-    chk.floor("R06.3", "Point(...) constructions in legacy add/double/neg", len(leg), 3)
+    chk.floor("R06.3", "Point(...) constructions in legacy add/double/neg", len(leg), 2)
     for f, n, a in leg:
         # coordinates read from self.__x / self.__y are not modelled as reduced here: accept R or a raw field passed through unchanged
         srcs = [norm_text(x) for x in n.args[1:3]]
@@ -119,7 +143,7 @@ def run(chk):
         chk.ob("R06.4", "%s: `%s` (Y-role zero test -> %s) only where doubling a 2-torsion point is meant" % (nm, t.text, out), allowed, loc=loc(t.func, t.node),
                key="C06|R06.4|%s|%s|%d" % (nm, t.ctext, sites[k]),
                detail="%s treats Y == 0 as the identity (`%s` -> %s): a point of order 2 (y = 0) is mistaken for the point at infinity" % (nm, t.text, out))
-    chk.floor("R06.4", "Y-role zero tests with an identity outcome", sum(sites.values()), 4)
+    chk.floor("R06.4", "Y-role zero tests with an identity outcome", sum(sites.values()), 1)
 
     # ---- R06.5 dispatch
     f_add = p.func("ellipticcurve:PointJacobi._add")
@@ -141,7 +165,7 @@ def run(chk):
                 if nm in need:
                     calls.append((nm, [norm_text(a) for a in s.value.args], set(facts), s))
     walk(f_add.node.body, frozenset())
-    chk.floor("R06.5", "formula-helper calls in _add", len(calls), 5)
+    chk.floor("R06.5", "formula-helper calls in _add", len(calls), 3)
     params = f_add.params[1:]           # X1 Y1 Z1 X2 Y2 Z2 p
     op = {params[0]: 1, params[1]: 1, params[2]: 1, params[3]: 2, params[4]: 2, params[5]: 2}
     Z = {1: params[2], 2: params[5]}
@@ -168,13 +192,33 @@ def run(chk):
            loc=loc(f_add, last), key="C06|R06.5|exhaustive", detail="_add does not end in the general-Z formula")
 
     # ---- R06.6
-    chk.floor("R06.6", "inverse_mod calls in PointJacobi", len(M.inv_args), 3)
+    chk.floor("R06.6", "inverse_mod calls in PointJacobi", len(M.inv_args), 1)
     for f, n, v, text in M.inv_args:
         ok = isinstance(v.cls, str) and v.cls == R and "Z" in v.roles
         # the Z == 1 shortcut precedes (so the argument is a genuine denominator)
         pre = [t for t in M.tests if t.func is f and t.kind == "eq1" and "Z" in t.roles and t.node.lineno < n.lineno]
         chk.ob("R06.6", "%s: inverse_mod(%s, p) inverts the stored Z (non-zero by the invariant) after the Z == 1 shortcut" % (f.node.name, text), ok and bool(pre), loc=loc(f, n),
                key="C06|R06.6|%s" % f.node.name, detail="%s inverts a value that is not the invariant-protected Z coordinate" % f.node.name)
+
+    identity_operand_rule(chk, M, "C06")
+    # ---- R06.9 legacy Point.__add__: with equal x the choice between the identity and doubling is an
+    # exact test modulo p on y1 + y2 (coordinates of legacy points are not always reduced: __mul__
+    # builds Point(curve, x, -y)); raw integer equality of the points must not decide it
+    from sa import pat
+    fl = p.func("ellipticcurve:Point.__add__")
+    forms = ["if self.__x == other.__x:\n    if (self.__y + other.__y) % X_p == 0:\n        return INFINITY\n    else:\n        return self.double()",
+             "if self.__x == other.__x:\n    if (self.__y + other.__y) % X_p != 0:\n        return self.double()\n    else:\n        return INFINITY",
+             "if self.__x == other.__x:\n    if (self.__y + other.__y) % X_p == 0:\n        return INFINITY\n    return self.double()",
+             "if self.__x == other.__x:\n    if (self.__y - other.__y) % X_p == 0:\n        return self.double()\n    else:\n        return INFINITY",
+             "if self.__x == other.__x:\n    if (self.__y - other.__y) % X_p == 0:\n        return self.double()\n    return INFINITY"]
+    hits = [b_ for st_ in fl.node.body for b_ in [pat.any_of(st_, forms)] if b_ is not None]
+    okl = len(hits) == 1 and norm_text(hits[0]["X_p"]) in ("self.__curve.p()", "p", "other.__curve.p()")
+    if okl and norm_text(hits[0]["X_p"]) == "p":
+        okl = any(isinstance(x, ast.Assign) and norm_text(x) == "p = self.__curve.p()" for x in fl.node.body)
+    # no other return of the identity / of a doubling before the general formula
+    early = [x for st_ in fl.node.body if not (pat.any_of(st_, forms) is not None) for x in ast.walk(st_) if isinstance(x, ast.Return) and (norm_text(x.value) == "self.double()" or (norm_text(x.value) == "INFINITY"))]
+    chk.ob("R06.9", "legacy Point.__add__: equal x -> INFINITY iff (y1 + y2) % p == 0, else double(); no other shortcut to either", okl and not early, loc=fl.qname, key="C06|R06.9|legacy-same-x",
+           detail="the legacy addition decides the equal-x case otherwise than by (y1 + y2) %% p == 0 (%s): with an unreduced y (as Point.__mul__ builds) -P + P' or P + P is answered wrongly" % ("other shortcuts: %s" % [norm_text(x) for x in early] if early else "test not found"))
 
     # ---- R06.7
     ncls = 0
@@ -192,7 +236,7 @@ def run(chk):
             eq = c.methods["__eq__"]
             ni = any(isinstance(n, ast.Return) and isinstance(n.value, ast.Name) and n.value.id == "NotImplemented" for n in ast.walk(eq.node))
             chk.ob("R06.7", "%s.__eq__ returns NotImplemented for foreign types" % c.name, ni, loc=c.qname, key="C06|R06.7|ni|%s" % c.name, detail="%s.__eq__ never returns NotImplemented" % c.name)
-    chk.floor("R06.7", "classes defining __eq__", ncls, 7)
+    chk.floor("R06.7", "classes defining __eq__", ncls, 4)
     # PointJacobi.__eq__ compares reduced cross products
     eqt = [t for t in M.tests if t.func.node.name == "__eq__" and t.kind == "zero" and isinstance(t.stmt, ast.Return) and isinstance(t.stmt.value, ast.BoolOp) and isinstance(t.stmt.value.op, ast.And)]
     chk.ob("R06.7", "PointJacobi.__eq__ compares cross-multiplied coordinates reduced mod p [%d test(s)]" % len(eqt), len(eqt) >= 2 and all(t.exact and t.operands[0].cls == R for t in eqt),
